@@ -17,7 +17,10 @@ def make_kvs(spec):
             kv = [br[0]] * (ps[d] + 1) + list(br[1:-1]) + [br[-1]] * (ps[d] + 1)
             out.append(bspline.KnotVector(np.array(kv, dtype=float), ps[d]))
         return tuple(out)
-    return tuple(bspline.make_knots(ps[d], 0.0, 1.0, ns[d]) for d in range(dim))
+    mult = spec.get('mult', 1)
+    ms = mult if isinstance(mult, (list, tuple)) else [mult] * dim
+    # (mult > 1: repeated interior knots -- a knot span then carries the functions first..first+p with first != span index)
+    return tuple(bspline.make_knots(ps[d], 0.0, 1.0, ns[d], mult=min(ms[d], ps[d])) for d in range(dim))
 
 
 def disparity_of(spec):
